@@ -253,6 +253,8 @@ pub struct ObMeta {
     /// only z3 5.x is expected to decide it (Inv / domain axioms)
     pub single_solver: bool,
     pub finding_key: String,
+    /// counterexample candidate found by the algebraic model search (file with name -> value)
+    pub candidate: Option<String>,
 }
 
 pub struct Ob {
@@ -385,6 +387,7 @@ impl Ctx {
                     vars: HashMap::new(),
                     nodes: 0,
                     single_solver: false,
+                    candidate: None,
                     finding_key: format!("{idp}.panic"),
                 });
             }
@@ -427,6 +430,23 @@ impl Ctx {
                 let ql = smt::query(&hyps, &goals, true, ob.perm_injective, true);
                 let qn = smt::query(&hyps, &goals, false, ob.perm_injective, true);
                 let closed_kind = if trivial { Some("syntactic") } else if ql.goals_trivial { Some("normal-form") } else { None };
+                // perturbation obligations that are not closed by the preprocessing: look for a
+                // counterexample candidate algebraically (the solvers are poor at constructing one)
+                let mut candidate = None;
+                if closed_kind.is_none() && ob.domain_axioms && !ob.perm_injective {
+                    let prep = smt::prepare(&hyps, &goals);
+                    if let Some(m) = crate::modelsearch::search(&prep, 0x5eed ^ hyps.len() as u64, 24) {
+                        let mut named: HashMap<String, u64> = HashMap::new();
+                        for (atom, v) in m {
+                            if let crate::Node::Var(nm) = crate::node_of(atom) {
+                                named.insert(nm, v);
+                            }
+                        }
+                        let cf = format!("{}.candidate.json", ob.id.replace('/', "_"));
+                        std::fs::write(format!("{}/{}", dir, cf), serde_json::to_string(&named).unwrap()).unwrap();
+                        candidate = Some(cf);
+                    }
+                }
                 let vars = qn.vars.clone();
                 if ql.n_dens > 0 {
                     assumptions.push(format!("{} inverted quantities are non-zero (the real code panics / returns None otherwise)", ql.n_dens));
@@ -460,6 +480,7 @@ impl Ctx {
                     vars: vars.values().map(|n| (smt::var_smt_name(n), n.clone())).collect(),
                     nodes,
                     single_solver: has_inv && false,
+                    candidate,
                     finding_key: ob.finding_key.clone().unwrap_or_else(|| ob.id.clone()),
                 });
             }
